@@ -120,13 +120,14 @@ def check(run, M, tier):
         for o in outs:
             cs = frozenset(c.key() for c in o.conds)
             m = [r for r in refs if frozenset(c.key() for c in r.conds) <= cs]
-            ok = len(m) == 1 and T.enc(o.env.get("A")) == T.enc(m[0].env.get("A")) and T.enc(o.env.get("y")) == T.enc(m[0].env.get("y"))
+            # local names of the analysed constructor never matter: the operator and the data are what reaches LinearLeastSquares.__init__
             sup = o.env.get("__super_args__")
-            ok2 = isinstance(sup, tuple) and len(sup) == 2 and T.enc(sup[0]) == T.enc(o.env.get("A")) and T.enc(sup[1]) == T.enc(o.env.get("y"))
+            ok2 = isinstance(sup, tuple) and len(sup) == 2
+            ok = len(m) == 1 and ok2 and T.enc(sup[0]) == T.enc(m[0].env.get("A")) and T.enc(sup[1]) == T.enc(m[0].env.get("y"))
             run.check(ok and ok2, "E2", "%s preamble[%s]" % (cname, cond_text(o.conds)[:60]), f.loc(),
                       "y * weights**0.5 and Sense(mps, coord, weights, ...) with the same estimated weights, handed to LinearLeastSquares as (A, y)",
                       "%s: under [%s] the data is %s and the operator %s (passed on as %s); expected y * weights**0.5 with the same weights given to Sense, all of "
-                      "coord/coil_batch_size/comm/transp_nufft forwarded" % (cname, cond_text(o.conds), _show(o.env.get("y")), _show(o.env.get("A")), _show(sup)),
+                      "coord/coil_batch_size/comm/transp_nufft forwarded" % (cname, cond_text(o.conds), _show(sup[1]) if ok2 else "?", _show(sup[0]) if ok2 else "?", _show(sup)),
                       stmt="E2:pre:%s:%s" % (cname, cond_text(o.conds)))
     # SenseRecon forwards lamda
     for o in results["SenseRecon"]:
@@ -135,7 +136,7 @@ def check(run, M, tier):
     # L1Wavelet
     fl = M.func("sigpy.mri.app.L1WaveletRecon.__init__")
     for o in results["L1WaveletRecon"]:
-        W = o.env.get("W")
+        W = _kwarg_of(o.env.get("__kw_proxg"), "new:sigpy.prox.UnitaryTransform", "A")
         wantW = VN(M, fl).ev(ast.parse("sp.linop.Wavelet(mps.shape[1:], wave_name=wave_name)", mode="eval").body, State())
         okW = W is not None and T.enc(W) == T.enc(wantW)
         wantP = VN(M, fl).ev(ast.parse("sp.prox.UnitaryTransform(sp.prox.L1Reg(W.oshape, lamda), W)", mode="eval").body, State({"W": W}))
@@ -152,8 +153,9 @@ def check(run, M, tier):
                   % (_show(W), _show(o.env.get("__kw_proxg")), gs[:120]), stmt="E2:l1w:%s" % cond_text(o.conds))
     ft = M.func("sigpy.mri.app.TotalVariationRecon.__init__")
     for o in results["TotalVariationRecon"]:
-        A = o.env.get("A")
-        G = o.env.get("G")
+        sup = o.env.get("__super_args__")
+        A = sup[0] if isinstance(sup, tuple) and sup else None
+        G = o.env.get("__kw_G")
         wantG = VN(M, ft).ev(ast.parse("sp.linop.FiniteDifference(A.ishape)", mode="eval").body, State({"A": A}))
         wantP = VN(M, ft).ev(ast.parse("sp.prox.L1Reg(G.oshape, lamda)", mode="eval").body, State({"G": G}))
         ok = G is not None and T.enc(G) == T.enc(wantG) and T.enc(o.env.get("__kw_G")) == T.enc(G) and T.enc(o.env.get("__kw_proxg")) == T.enc(wantP)
@@ -164,6 +166,19 @@ def check(run, M, tier):
         run.check(ok and okg, "E2", "TotalVariationRecon wiring[%s]" % cond_text(o.conds)[:40], ft.loc(),
                   "G = FiniteDifference(A.ishape), proxg = L1Reg(G.oshape, lamda), g = lamda*sum|.|, all passed to LinearLeastSquares",
                   "TotalVariationRecon wires G=%s, proxg=%s" % (_show(G), _show(o.env.get("__kw_proxg"))), stmt="E2:tv:%s" % cond_text(o.conds))
+
+
+def _kwarg_of(term, fname, kw):
+    """the value bound to keyword/parameter `kw` in the application `fname(...)` that `term` consists of"""
+    a = term.single_atom() if isinstance(term, T.Poly) else None
+    if a is None or a[0] != "app" or a[1] != fname:
+        return None
+    for x in a[2]:
+        v = T.dec(x)
+        va = v.single_atom() if isinstance(v, T.Poly) else None
+        if va is not None and va[0] == "app" and va[1] == "kw:" + kw:
+            return T.dec(va[2][0])
+    return None
 
 
 def _desc(v):
